@@ -525,6 +525,21 @@ def _u_arccos(a, out=None, **kw):
     return _store(_elementwise(angle.arccos, a), out)
 
 
+def _u_arcsin(a, out=None, **kw):
+    # arcsin x = pi / 2 - arccos x: the same uninterpreted function as arccos, so identities between the two survive
+    def f(v):
+        v = Sym._co(core.force(v))
+        if bool(v > 1) or bool(v < -1):
+            raise core.NonFinite("arcsin outside [-1, 1]")
+        return core.CTX.pi / 2 - angle._acos_value(v)
+
+    return _store(_elementwise(f, a), out)
+
+
+def _u_arctan(a, out=None, **kw):
+    return _store(_elementwise(lambda v: angle.arctan2(Sym._co(core.force(v)), Sym._co(1)), a), out)
+
+
 def _u_absolute(a, out=None, **kw):
     return _store(_elementwise(lambda v: abs(v), a), out)
 
@@ -591,6 +606,8 @@ _UFUNC = {
     ("tan", "__call__"): _trig("tan"),
     ("arctan2", "__call__"): _u_arctan2,
     ("arccos", "__call__"): _u_arccos,
+    ("arcsin", "__call__"): _u_arcsin,
+    ("arctan", "__call__"): _u_arctan,
     ("absolute", "__call__"): _u_absolute,
     ("fabs", "__call__"): _u_absolute,
     ("exp", "__call__"): _u_exp,
@@ -1087,6 +1104,12 @@ class SymNP(types.ModuleType):
 
     def arccos(self, x):
         return _u_arccos(x if isinstance(x, (_np.ndarray,) + _KEEP) else conv(x))
+
+    def arcsin(self, x):
+        return _u_arcsin(sarr(x, copy=False) if _np.ndim(x) else conv(x))
+
+    def arctan(self, x):
+        return _u_arctan(sarr(x, copy=False) if _np.ndim(x) else conv(x))
 
     def arctan2(self, y, x):
         return _u_arctan2(self.asarray(y) if not isinstance(y, _KEEP) else y, self.asarray(x) if not isinstance(x, _KEEP) else x)
